@@ -1,9 +1,12 @@
 #!/venv/bin/python
 """Runs the registered quick checks against a seeded breaking change.
 
-usage: tools_seeded.py <seeded-dir> [prop ...] [--seeds 0,1] [--thorough]
+usage: tools_seeded.py <seeded-dir> [prop ...] [--seeds=0,1] [--thorough] [--worktree]
 Applies <dir>/patch.diff to /repo (git apply), runs <dir>/demo.py (must fail), runs the
 checks, then ALWAYS restores /repo (git checkout -- .).  Prints one line per check.
+With --worktree nothing in /repo is touched: the patch is applied to a scratch worktree of
+/repo's HEAD under /tmp, the checks import pyglove from there through PYTHONPATH (used while
+a background sweep is reading /repo), and the worktree is removed afterwards.
 """
 import json
 import os
@@ -29,7 +32,24 @@ def main():
         if o.startswith('--seeds'):
             seeds = [int(x) for x in o.split('=')[1].split(',')]
     tier = 'thorough' if '--thorough' in opts else 'quick'
-    assert sh('git -C /repo status --porcelain').stdout.strip() == '', '/repo is not clean'
+    global REPO
+    scratch = None
+    if '--worktree' in opts:
+        scratch = f'/tmp/seeded_eval_{os.getpid()}'
+        r = sh(f'git -C /repo worktree add -q --detach {scratch} HEAD')
+        assert r.returncode == 0, r.stderr
+        REPO = scratch
+    else:
+        assert sh('git -C /repo status --porcelain').stdout.strip() == '', '/repo is not clean'
+    try:
+        return _run(d, props, seeds, tier, scratch)
+    finally:
+        if scratch:
+            sh(f'git -C /repo worktree remove --force {scratch}')
+
+
+def _run(d, props, seeds, tier, scratch):
+    env_prefix = f'PYTHONPATH={REPO} ' if scratch else ''
     demo = os.path.join(d, 'demo.py')
     r0 = sh(f'cd {REPO} && PYTHONPATH={REPO} timeout 300 /venv/bin/python {demo}')
     print(f'demo on clean tree: exit {r0.returncode}')
@@ -44,7 +64,7 @@ def main():
         for p in props:
             for s in seeds:
                 t0 = time.time()
-                r = sh(f'cd /verif && VERIF_SEED={s} VERIF_SKIP_SELFTEST=1 timeout 1500 /venv/bin/python check.py {p} --tier {tier} --no-canaries')
+                r = sh(f'cd /verif && {env_prefix}VERIF_SEED={s} VERIF_SKIP_SELFTEST=1 timeout 1500 /venv/bin/python check.py {p} --tier {tier} --no-canaries')
                 viol = [l for l in r.stdout.splitlines() if l.startswith('VIOLATION')]
                 sigs = [l.strip() for l in r.stdout.splitlines() if l.startswith('  C')]
                 print(f'check {p} seed={s}: exit {r.returncode}, {len(viol)} VIOLATION lines, '
@@ -57,7 +77,8 @@ def main():
                                        'signatures': [l.split(':')[0] for l in sigs[:5]]}
     finally:
         sh(f'git -C {REPO} checkout -- .')
-        assert sh('git -C /repo status --porcelain').stdout.strip() == ''
+        if not scratch:
+            assert sh('git -C /repo status --porcelain').stdout.strip() == ''
     print(json.dumps({'demo_clean': r0.returncode, 'demo_mutant': r1.returncode, 'checks': results}))
     return 0
 
